@@ -94,8 +94,11 @@ func verifMakePC(sf *SnowflakeProxy, sdp *webrtc.SessionDescription, config webr
 	verifapi.Assert(verifHandlerURL == verifRelayURL || (verifRelayURL == "" && verifHandlerURL == sf.RelayURL),
 		"C06: the data channel handler is given exactly the admitted relay URL")
 	verifDataChan = dataChan
+	verifPCMade++
 	return new(webrtc.PeerConnection), nil
 }
+
+var verifPCMade int
 
 var verifHandlerProbe bool
 var verifDataChan chan struct{}
@@ -169,6 +172,10 @@ func VerifC16_RunSession() {
 	} else {
 		verifapi.Cover("session: ended without a data channel")
 		verifapi.Assert(tokens.count() == 0, "C16: a session that ends without an open data channel releases its slot exactly once")
+		// a peer connection left alive after its slot was released could still be joined by the
+		// client (the answer may have reached it even though the broker reported a failure) and
+		// would then be served without a slot
+		verifapi.Assert(verifPCMade == 0 || verifPCClosed >= 1, "C16: a session that gives its slot back also closes its peer connection")
 		if n != 0 {
 			verifapi.Assert(len(tokens.ch) == 0, "C16: the capacity semaphore is released")
 		}
